@@ -16,7 +16,7 @@ from pat_common import *
 PROP = "C08"
 META = {
  "engine": "P-pattern-algebra",
- "text": "Coq theorems (Props/C08.v, closed under the global context) prove, for an ARBITRARY operator semantics (a Section variable) and arbitrary operand objects of the pattern model: the i-th output of every PBinOp class is the operator applied to the i-th operand values, a rest on either side gives a rest, the output stops at the first index at which either operand stops (left operand first), & yields the conjunction of the truth values, -p is 0 - p_i and abs(p) is |p_i| with rests kept; what the Python operators build (dunder table incl. reflected forms) denotes the operator with the operands in the written order; and the law lifts to operator expression trees of any depth by induction. The model (Pat/Step.v, a clause-by-clause transcription of core.py) is tied to the repository on every run: operator expressions built through the Python operators for all 15 operators and &, -x, abs(x), pattern/scalar on either side, ints/floats/bools/rests, equal and unequal lengths, raising operands, nestings to depth 3 (5 % deeper) are run on both sides and compared inside Coq; an independent oracle applies Python's own operators to the operand streams in the written nesting order, compares floats bit for bit (incl. the sign of a zero) and supplies the failing input. Rounding-sensitive strata (two-operator chains and nested trees with scalars at every level over float themes: non-dyadic decimals, cancellation with 1e16, values near 2**53, subnormals, signed zeros) make re-association, distribution, constant folding and single rounding visible; these cases are also compared with the model under the operator semantics Pat/Ieee.v (exact result rounded to binary64, ties to even), for which Props/C08.v proves the nesting law instance, non-associativity / non-distributivity witnesses, the reflected-form side condition and conservativity over Pat/Val.v. Special IEEE values (NaN, +-inf, overflow) as operand values - stream elements, scalars on either side, arising inside expressions - are explored by element-wise tables of every operator class / & / abs / unary minus over all ordered pairs of a pool (forms ctor, pp, ps, sp), singles, two-operator chains and nested trees; they are modelled in Pat/IeeeSpecial.v (xf = XNaN | XInf | XFin: NaN unordered, IEEE + - * / with overflow, // % with a non-finite operand, abs, truthiness), for which Props/C08.v proves that x >= y is not (x < y) exactly on ordered operands, trichotomy exactly on non-NaN, that orderings derived from a three-way comparison are right exactly on ordered operands, NaN propagation and the inf arithmetic, the reflected-form side condition for ALL values, conservativity over Pat/Ieee.v, and - through an encoding into val - the pattern-level law instantiated at this semantics; the tables are compared element by element and the expressions through the shared pattern model inside Coq.",
+ "text": "Coq theorems (Props/C08.v, closed under the global context) prove, for an ARBITRARY operator semantics (a Section variable) and arbitrary operand objects of the pattern model: the i-th output of every PBinOp class is the operator applied to the i-th operand values, a rest on either side gives a rest, the output stops at the first index at which either operand stops (left operand first), & yields the conjunction of the truth values, -p is 0 - p_i and abs(p) is |p_i| with rests kept; what the Python operators build (dunder table incl. reflected forms) denotes the operator with the operands in the written order; and the law lifts to operator expression trees of any depth by induction. The model (Pat/Step.v, a clause-by-clause transcription of core.py) is tied to the repository on every run: operator expressions built through the Python operators for all 15 operators and &, -x, abs(x), pattern/scalar on either side, ints/floats/bools/rests, equal and unequal lengths, raising operands, nestings to depth 3 (5 % deeper) are run on both sides and compared inside Coq; an independent oracle applies Python's own operators to the operand streams in the written nesting order, compares floats bit for bit (incl. the sign of a zero) and supplies the failing input. Rounding-sensitive strata (two-operator chains and nested trees with scalars at every level over float themes: non-dyadic decimals, cancellation with 1e16, values near 2**53, subnormals, signed zeros) make re-association, distribution, constant folding and single rounding visible; these cases are also compared with the model under the operator semantics Pat/Ieee.v (exact result rounded to binary64, ties to even), for which Props/C08.v proves the nesting law instance, non-associativity / non-distributivity witnesses, the reflected-form side condition and conservativity over Pat/Val.v. Special IEEE values (NaN, +-inf, overflow) as operand values - stream elements, scalars on either side, arising inside expressions - are explored by element-wise tables of every operator class / & / abs / unary minus over all ordered pairs of a pool (forms ctor, pp, ps, sp), singles, two-operator chains and nested trees; they are modelled in Pat/IeeeSpecial.v (xf = XNaN | XInf | XFin: NaN unordered, IEEE + - * / with overflow, // % with a non-finite operand, abs, truthiness), for which Props/C08.v proves that x >= y is not (x < y) exactly on ordered operands, trichotomy exactly on non-NaN, that orderings derived from a three-way comparison are right exactly on ordered operands, NaN propagation and the inf arithmetic, the reflected-form side condition for ALL values, conservativity over Pat/Ieee.v, and - through an encoding into val - the pattern-level law instantiated at this semantics; the tables are compared element by element and the expressions through the shared pattern model inside Coq. Operand classes: the dunder theorems hold for an arbitrary operand expression (C08_dunder_any_operand_class: the operands are passed on untouched); the correspondence runs every operator, reflected form, &, unary minus and abs with one instance of EVERY Pattern subclass of the live library (list by introspection; registry classes as typed random instances also compared with the model, the others from recipes, stochastic ones seeded) as the pattern operand itself, judged element-wise against a fresh twin, and records which classes store instance attributes that shadow attributes of class Pattern.",
  "note": "Trusted: Coq kernel + VM; the harness; Val.binop as a description of CPython's arithmetic on the exact (dyadic) value domain - the C08 theorems do not depend on it (operator semantics is a Section variable), only the correspondence does; and Ieee.binop_ieee (round-to-nearest-even + - * / on all finite floats) as a description of CPython's float arithmetic, validated by the correspondence only; IeeeSpecial.xbinop as a description of CPython's float arithmetic on NaN / inf, validated by the correspondence only; results outside these domains (// % ** on non-dyadic floats, ** with a non-finite operand, complex, huge ints) are judged by the oracle only and discarded from the model comparison; the sign of a zero is judged by the oracle only, and not under a unary minus (property text undecided). After the first exception the operand streams are no longer aligned (the left operand has advanced, the right has not): the law is judged up to and including the first StopIteration/exception.",
 }
 
@@ -86,7 +86,10 @@ def elem(x, i, streams):
             return "stop"
         if "r" in o:
             return ("r", o["r"])
-        return ("y", obs_value(o["y"]))
+        v = obs_value(o["y"])
+        if isinstance(v, Opaque):                       # an object that did not travel (a Scale, a complex ...): the Python
+            raise CannotJudge("opaque value %r" % v)    # operator cannot be applied to a stand-in
+        return ("y", v)
     if is_pat(x) or isinstance(x, (tuple, list, dict)):
         raise CannotJudge(repr(x))
     return ("y", x)
@@ -176,12 +179,27 @@ def resumes_after_stop(stream):
     return False
 
 
-def judge(case, streams):
+def operand_leaves(x):
+    """the operands of an operator expression: descend through operator nodes (infix, unary, operator classes called
+    directly), stop at any other pattern (whatever it holds inside is its own business)"""
+    if isinstance(x, Infix):
+        yield from operand_leaves(x.lhs); yield from operand_leaves(x.rhs)
+    elif isinstance(x, Unary):
+        yield from operand_leaves(x.x)
+    elif isinstance(x, E) and ((x.cls in CLS2SYM and len(x.args) == 2) or (x.cls == "PAbs" and len(x.args) == 1)):
+        for a in x.args:
+            yield from operand_leaves(a)
+    elif isinstance(x, E):
+        yield x
+
+
+def judge(case, streams, operand_only=False):
     """None if the implementation's observations are what the property demands, else a dict describing
     the first deviation.  Judged: the constructor, then every next() up to and including the first
-    StopIteration / exception; after a StopIteration no value may appear again."""
+    StopIteration / exception; after a StopIteration no value may appear again.
+    operand_only: only the operands themselves need a recorded stream, not the patterns nested inside them."""
     obs = case.obs
-    for _, n in nodes(case.expr):                       # a non-literal operand whose own constructor raised
+    for _, n in ([((), l) for l in operand_leaves(case.expr)] if operand_only else nodes(case.expr)):   # a non-literal operand whose own constructor raised
         if isinstance(n, E) and n.cls not in CLS2SYM and n.cls != "PAbs" and not is_literal(n) \
                 and to_source(n) not in streams:
             raise CannotJudge(to_source(n))
@@ -848,19 +866,94 @@ def run_grid_model(run, grid):
     return rows, codes_of
 
 
+# ---- operand classes ---------------------------------------------------------------------------------------
+# The dunder methods are inherited by EVERY pattern class; what they reach through `self` (self.pattern(...),
+# self.value(...), self.copy ...) is the instance's attribute when the class stores one of that name.  The strata above
+# build operands from PSequence / PSeries / PConstant, operator expressions and (every 4th tree) the classes of the
+# model's registry, never the stochastic, tonal, fade, warp ... classes, and rarely directly under a reflected operator.
+# Here every pattern class of the library (taken from the live library by introspection) is the pattern operand itself,
+# on either side of every operator, in the reflected forms, under unary minus, abs and &.
+import c08_classes as _cc
+CLASS_SCALARS = [7, 7.5, 2, -3, 0.5, True, 12]
+CLASS_STREAM = [3, 1, 2, 0, 4, 2]
+
+
+def recipe_leaf(src):
+    """the expression-tree form of a recipe `iso.<...>.seed(n)` / `iso.<...>.copy()`: a call whose class part is the text
+    in front of the last call (to_source gives the recipe back; it travels through JSON as it is; no image in the model)"""
+    assert src.startswith("iso.")
+    if src.endswith(".copy()"):
+        return E(src[4:-2])
+    head, _, arg = src[4:-1].rpartition(".seed(")
+    return E(head + ".seed", int(arg))
+
+
+def class_leaves(rng, classes):
+    """(class name, operand expression, constructor only?) for every class of the live library that can be built"""
+    gen = Gen(rng, None)
+    out, missing = [], []
+    for cls in classes:
+        if cls in _cc.EXCLUDED:
+            continue
+        if cls in GENERATORS:
+            out.append((cls, gen.make(cls, 1, GENERATORS[cls][1]), False))
+        elif cls in _cc.RECIPES:
+            out.append((cls, recipe_leaf(_cc.RECIPES[cls]), False))
+        elif cls in _cc.CTOR_ONLY:
+            out.append((cls, recipe_leaf(_cc.CTOR_ONLY[cls]), True))
+        elif cls == "PDict":
+            out.append((cls, E("PDict", {"note": E("PSequence", [1, 2, 3], 1), "amp": 4}), False))
+        else:
+            missing.append(cls)
+    return out, missing
+
+
+def class_cases(rng, leaves, pp_ops):
+    """the operand L of class C: L o c and c o L for all 15 operators (c a scalar: the reflected / mirrored dunder is
+    dispatched on L), L o P and P o L for `pp_ops` operators per class (rotating), L & c, L & P, P & L, -L, abs(L)"""
+    out = []
+    syms = list(PYOP)
+    for k, (cls, L, ctor_only) in enumerate(leaves):
+        n_ops = 0 if ctor_only else 8
+
+        def add(e, form):
+            out.append(Case(e, [("next", 0)] * n_ops, "operand-class", {"cls": cls, "form": form}))
+        for sym in syms:
+            small = sym in SMALL_RHS
+            add(Infix(sym, L, rng.choice([2, 3, 0, 1]) if small else rng.choice(CLASS_SCALARS)), "ps")
+            add(Infix(sym, rng.choice([1, 3, 12] if sym in ("<<", ">>") else [2, 0.5, 3, 1]) if small else rng.choice(CLASS_SCALARS), L), "sp")
+        for j in range(pp_ops):
+            sym = syms[(k * pp_ops + j) % len(syms)]
+            P = E("PSequence", [rng.choice(CLASS_STREAM) for _ in range(6)], 1)
+            add(Infix(sym, L, P), "pp")
+            sym = syms[(k * pp_ops + j + 7) % len(syms)]
+            P = E("PSequence", [rng.choice(CLASS_STREAM) for _ in range(6)], 1)
+            add(Infix(sym, P, L), "pp")
+        P = E("PSequence", [rng.choice(CLASS_STREAM) for _ in range(6)], 1)
+        add(Infix("&", L, rng.choice([0, 1, 2.5])), "ps")
+        add(Infix("&", L, P), "pp")
+        add(Infix("&", P, L), "pp")
+        add(Unary("neg", L), "p")
+        add(Unary("abs", L), "p")
+    return out
+
+
 def run_impl8(run, cases, shards=12):
     """as pat_common.run_impl, on impl/c08_impl.py: the expression travels as its Python source text as well (the
     JSON form, floats as integer ratios, would lose the sign of a literal -0.0), observations mark negative zeros"""
     if not cases:
         return
     parts = [cases[i::shards] for i in range(shards) if cases[i::shards]]
-    payloads = [{"cases": [{"expr": to_json(c.expr), "source": to_source(c.expr), "ops": [list(o) for o in c.ops]}
+    payloads = [{"cases": [{"expr": to_json(c.expr), "source": to_source(c.expr), "ops": [list(o) for o in c.ops],
+                            **({"introspect": True} if c.tag == "leaf" else {})}
                            for c in part]} for part in parts]
     outs = run.impl_parallel("c08_impl", payloads)
     for part, out in zip(parts, outs):
         for c, r in zip(part, out["cases"]):
             c.obs = r["obs"]
             c.status = r.get("status")
+            if "shadow" in r:
+                c.meta["shadow"], c.meta["live_cls"] = r["shadow"], r.get("cls")
 
 
 IEEE_HEADER = HEADER.replace("Pat.Script ", "Pat.Script Pat.Ieee ").replace(
@@ -941,12 +1034,21 @@ def check(run):
     sp_cases = sp_single_cases(rng, 3 if thorough else 1) + sp_chain_cases(rng, fg, 6 if thorough else 1) + \
         sp_tree_cases(rng, fg, 6000 if thorough else 300)
 
+    # every pattern class of the live library as the operand itself (generated last)
+    live = run.impl("c08_impl", {"cases": [], "list_classes": True})["classes"]
+    cls_leaves, cls_missing = class_leaves(rng, live)
+    cls_cases = class_cases(rng, cls_leaves, 6 if thorough else 2)
+
     # operand streams of the non-literal leaves: a fresh instance of the leaf, run on its own
     leaves = {}
     for x in tg.opaque:
         leaves.setdefault(to_source(x), x)
+    for c in cls_cases:
+        for x in operand_leaves(c.expr):
+            if not is_literal(x):
+                leaves.setdefault(to_source(x), x)
     leaf_cases = [Case(x, [("next", 0)] * NEXTS, "leaf") for x in leaves.values()]
-    run_impl8(run, cases + script_cases + leaf_cases + fp_cases + sp_grid + sp_cases)
+    run_impl8(run, cases + script_cases + leaf_cases + fp_cases + sp_grid + sp_cases + cls_cases)
     streams = {to_source(c.expr): c.obs[1:] for c in leaf_cases
                if not c.status and c.obs and canon_obs(c.obs[0]) == "value null"}
     lap("generate+implementation")
@@ -988,10 +1090,50 @@ def check(run):
             explained.add(id(c))
             report(run, c, dev, streams)
     run.sample({"expr": to_source(cases[len(cases) // 2].expr), "observed": cases[len(cases) // 2].obs_pretty()})
+    # ---- oracle, operand classes
+    shadow = {}
+    by_src = {to_source(l.expr): l for l in leaf_cases}
+    for cls, L, _ in cls_leaves:
+        l = by_src.get(to_source(L))
+        if l is not None and l.meta.get("shadow"):
+            shadow[cls] = l.meta["shadow"]
+    per_class = {}
+    for c in cls_cases:
+        run.count()
+        cls = c.meta["cls"]
+        sym, form = root_sig(c.expr)
+        run.dist("op.%s" % sym); run.dist("form.%s" % form); run.dist("stream.operand-class"); run.dist("operand-class.%s" % cls)
+        for a in shadow.get(cls, ()):
+            run.dist("operand-class.shadows.%s" % a)
+        if c.status:
+            run.discard("impl-" + c.status)
+            continue
+        try:
+            dev = judge(c, streams, operand_only=True)
+        except CannotJudge:
+            run.discard("operand-class: the operand's own constructor raises")
+            continue
+        run.cov["oracle_evaluations"] += len(c.obs)
+        per_class[cls] = per_class.get(cls, 0) + 1
+        if len(c.obs) > 1 and canon_obs(c.obs[1]).startswith("value") or not c.ops:
+            run.nontrivial(to_source(c.expr))
+        if dev is not None:
+            explained.add(id(c))
+            k = ("cls", sym, form)
+            run._c08_cls = getattr(run, "_c08_cls", {})
+            run._c08_cls[k] = run._c08_cls.get(k, 0) + 1
+            if run._c08_cls[k] <= 3:                     # at most three operand classes per (operator, form)
+                report(run, c, dev, streams, {"operand": cls}, operand_only=True)
+    run.cov["operand_classes"] = {
+        "live_pattern_classes": len(live), "as_operand": len(per_class), "judged_cases_per_class": per_class,
+        "excluded": {c: why for c, why in _cc.EXCLUDED.items() if c in live},
+        "not_covered": cls_missing,
+        "instance_attributes_shadowing_Pattern_attributes": shadow}
 
     lap("oracle")
     # ---- model
-    allc = [c for c in cases + script_cases if model_case_ok(c) and not (stale and uses(c.expr, stale))]
+    allc = [c for c in cases + script_cases + [k for k in cls_cases if k.meta["cls"] in GENERATORS]
+            if model_case_ok(c) and not (stale and uses(c.expr, stale))]
     run_model(run, allc)
     lap("model")
     for c in script_cases:
@@ -1135,7 +1277,7 @@ def uses(x, classes):
     return any(isinstance(n, E) and n.cls in classes for _, n in nodes(x))
 
 
-def report(run, c, dev, streams):
+def report(run, c, dev, streams, extra_sig=None, operand_only=False):
     sym, form = root_sig(c.expr)
     what = "constructor" if dev["index"] == "constructor" else \
         "length" if "stop" in (dev["expected"], dev["observed"]) or dev["expected"].startswith("StopIteration") else \
@@ -1151,15 +1293,15 @@ def report(run, c, dev, streams):
             sub = Case(n, c.ops, c.tag)
             try:
                 run_impl8(run, [sub], shards=1)
-                if not sub.status and judge(sub, streams) is not None:
+                if not sub.status and judge(sub, streams, operand_only) is not None:
                     culprit = sub
                     break
             except (CannotJudge, CheckError):
                 pass
     if culprit is not c:
-        dev = judge(culprit, streams)
+        dev = judge(culprit, streams, operand_only)
         sym, form = root_sig(culprit.expr)
-    run.violation({"kind": "elementwise", "op": sym, "form": form, "what": what}, {
+    run.violation({"kind": "elementwise", "op": sym, "form": form, "what": what, **(extra_sig or {})}, {
         "case": {"expr": to_source(culprit.expr), "expr_json": to_json(culprit.expr), "ops": [list(o) for o in culprit.ops]},
         "element": dev["index"], "expected": dev["expected"], "observed": dev["observed"],
         "observed_outputs": culprit.obs_pretty(),
